@@ -336,6 +336,7 @@ class AnsiString:
         # Apply settings
         if start not in self._fmts:
             self._fmts[start] = _AnsiSettingPoint()
+        settings_before = self.ansi_settings_at(start)
 
         # When not topmost, do a remove and re-add of any settings that lead up to the start index. They are
         # re-added directly above the new settings, below the settings which begin at the start index.
@@ -346,6 +347,21 @@ class AnsiString:
                     remove_and_add_settings.append(setting)
             self._fmts[start].insert_settings(False, remove_and_add_settings)
         self._fmts[start].insert_settings(True, ansi_settings + remove_and_add_settings, topmost)
+
+        # When topmost, the new settings must also stay above an existing setting which is merely stopped and
+        # restarted somewhere in the range (topmost=False and remove_formatting() leave such points behind):
+        # restart the new settings along with it, below the settings which really begin at that index
+        if topmost:
+            for idx in sorted(k for k in self._fmts if start < k < end):
+                point = self._fmts[idx]
+                restarted = [
+                    i for i, s in enumerate(point.add)
+                    if __class__._find_setting_reference(s, point.rem) >= 0
+                    and __class__._find_setting_reference(s, settings_before) >= 0
+                ]
+                if restarted:
+                    point.rem.extend(ansi_settings)
+                    point.add[restarted[-1] + 1:restarted[-1] + 1] = ansi_settings
 
         # Remove settings
         if end not in self._fmts:
